@@ -63,7 +63,7 @@ Proof.
       congruence. }
     unfold is_spanned in Hsp. apply orb_false_elim in Hsp. destruct Hsp as [Hcov Hspan].
     assert (Hok : alg_cell_ok a (z - x + 1) (t - y + 1) (fst c) = true).
-    { cbn [alg_ok_for] in Halg. rewrite forallb_forall in Halg. specialize (Halg row Hrow). rewrite forallb_forall in Halg. exact (Halg c Hc). }
+    { cbn [alg_ok_for] in Halg. rewrite Bool.andb_true_r in Halg. rewrite forallb_forall in Halg. specialize (Halg row Hrow). rewrite forallb_forall in Halg. exact (Halg c Hc). }
     unfold alg_cell_ok, alg_tag_ok in Hok. rewrite Hcov, Hspan in Hok.
     repeat (apply andb_prop in Hok; let H' := fresh "K" in destruct Hok as [Hok H']).
     destruct (Z.eqb_spec i x); destruct (Z.eqb_spec j y); cbn [andb]; unfold cov; cbn [fst snd]; rewrite Z.eqb_refl.
